@@ -20,6 +20,7 @@ from pycv import loops
 from pycv import sym
 from pycv.absunits import SymQ, SymUnit
 from pycv.explore import Job
+from pycv.sym import EngineError
 from pycv.sym import SymBool, SymNum
 
 from contracts import motor as CM
@@ -270,8 +271,16 @@ def make_env(c, wellformed=True):
     return env, solver
 
 
+def _renamed(e):
+    return EngineError("the Solver's private state (lock flag, equivalent inertia, powertrain reference) is bound to the abstract state by "
+                       f"attribute name in contracts/solver.py; the binding no longer matches the class: {e}")
+
+
 def sync_to_solver(env, solver):
     st = env.state
+    missing = [a for a in ("_Solver__powertrain", "_Solver__powertrain_is_locked") if a not in solver.__dict__]
+    if missing:
+        raise _renamed(f"no attribute {missing}")
     solver._Solver__powertrain_is_locked = SymBool(st["locked"])
     solver._Solver__powertrain_inertia_moment = SymQ("InertiaMoment", SymNum(st["Jeq_val"], "float"),
                                                      SymUnit("InertiaMoment", idx=st["Jeq_unit"]))
@@ -279,7 +288,10 @@ def sync_to_solver(env, solver):
 
 def sync_from_solver(env, solver):
     st = env.state
-    lk = solver._Solver__powertrain_is_locked
+    try:
+        lk = solver._Solver__powertrain_is_locked
+    except AttributeError as e:
+        raise _renamed(e) from e
     st["locked"] = lk.term if isinstance(lk, SymBool) else z3.BoolVal(bool(lk))
     q = solver._Solver__powertrain_inertia_moment
     if isinstance(q, SymQ):
